@@ -5,7 +5,9 @@ From VMQ Require Import model.Alias.
 Open Scope N_scope.
 
 Inductive case :=
-| COut (v5 : bool) (max : N) (topics : list topic) (obs : list (option topic * option N)) (ran : bool)
+(* topics with a flag: the message's expiry has elapsed when the writer dequeues it (it is dropped
+   BEFORE any alias is allocated for it) *)
+| COut (v5 : bool) (max : N) (topics : list (topic * bool)) (obs : list (option topic * option N)) (ran : bool)
 | CIn (maxrx : N) (pkts : list (option topic * option N * bool)) (routed : list topic) (terminated : bool) (reason : N) (ran : bool).
 
 Definition opt_eqb (a b : option N) : bool :=
@@ -26,7 +28,8 @@ Definition terminated_m (os : list rxout) : bool :=
 
 Definition case_ok (c : case) : bool :=
   match c with
-  | COut v5 max ts obs ran =>
+  | COut v5 max tsx obs ran =>
+      let ts := map fst (filter (fun x => negb (snd x)) tsx) in
       let max' := if v5 then max else 0 in
       let '(_, ps) := send_all (mkAl [] 0 max') ts in
       ran && list_eqb wp_eqb ps obs
